@@ -140,6 +140,8 @@ type vSession struct {
 	closed int
 	// backend Idle calls started / returned
 	idleStarted, idleReturned int
+	// Append fails without reading the message literal (e.g. no such mailbox)
+	appendRejectEarly bool
 	// optional behaviours
 	onList   func(w *ListWriter) error
 	onFetch  func(w *FetchWriter) error
@@ -222,6 +224,10 @@ func (s *vSession) Status(mailbox string, options *imap.StatusOptions) (*imap.St
 	return &imap.StatusData{Mailbox: mailbox, NumMessages: &n, UIDNext: 10, UIDValidity: 1, NumUnseen: &n, NumDeleted: &n, Size: &sz, AppendLimit: &lim, DeletedStorage: &sz}, nil
 }
 func (s *vSession) Append(mailbox string, r imap.LiteralReader, options *imap.AppendOptions) (*imap.AppendData, error) {
+	if s.appendRejectEarly {
+		s.rec(vCall{op: "AppendRejected", s1: mailbox, appOpts: options})
+		return nil, vErrBackend
+	}
 	var lit []byte
 	buf := make([]byte, 64)
 	for {
